@@ -240,7 +240,7 @@ def sampled(rng, n):
 
 def run(ctx):
     b = bounds(ctx.tier)
-    ctx.rule = ("every chain of 1..%d layout stages (19 stage configurations) x detector output (<= %d polygons, <= %d lines of 6 "
+    ctx.rule = ("every chain of 1..%d layout stages (19 stage configurations) x detector output (<= %d polygons, <= %d lines of 7 "
                 "geometry classes) x simple-extractor count x input page (<= %d regions); non-trivial = the chain changed the page "
                 "structure or ended in an exception" % (b[0], b[1], b[2], b[3]))
     ctx.exhaustive = True
